@@ -106,10 +106,38 @@ class Ev:
             r = self.body(e["recv"], payload, loc_)
             some = isinstance(r, tuple) and r and r[0] == "some"
             return some if e["name"] == "is_some" else (r == "none")
+        if k == "MethodCall" and e["name"] in ("then", "then_some") and len(e["args"]) == 1:
+            # `cond.then(|| v)`: Some(v) exactly when cond
+            if not self.truth(e["recv"], payload, loc_):
+                return "none"
+            a = _strip(e["args"][0])
+            return ("some", self.val(a["body"] if (e["name"] == "then" and a.get("k") == "Closure") else a, payload, loc_))
+        if k == "MethodCall" and e["name"] == "filter" and len(e["args"]) == 1 and _strip(e["args"][0]).get("k") == "Closure":
+            r = self.body(e["recv"], payload, loc_)
+            if r == "none":
+                return "none"
+            cl = _strip(e["args"][0])
+            if isinstance(r, tuple) and r and r[0] == "some" and len(cl.get("params", [])) == 1:
+                b = self.bind(cl["params"][0], r[1])
+                if b is not None:
+                    l2 = dict(loc_)
+                    l2.update(b)
+                    return r if self.truth(cl["body"], payload, l2) else "none"
+            raise Unx("filter on an Option whose content is not known")
         if k == "MethodCall" and e["name"] == "map" and len(e["args"]) == 1:
             r = self.body(e["recv"], payload, loc_)
             if r == "none":
                 return "none"
+            cl = _strip(e["args"][0])
+            if isinstance(r, tuple) and r and r[0] == "some" and cl.get("k") == "Closure" and len(cl.get("params", [])) == 1:
+                try:
+                    b = self.bind(cl["params"][0], r[1])
+                    if b is not None:
+                        l2 = dict(loc_)
+                        l2.update(b)
+                        return ("some", self.val(cl["body"], payload, l2))
+                except Unx:
+                    pass
             return ("some", "?")
         try:
             return self.truth(e, payload, loc_)
